@@ -3,6 +3,7 @@ From Coq Require Import ZArith NArith List Bool String.
 Import ListNotations.
 Require Import EmbossV.Bounds.Model EmbossV.Layout.Model EmbossV.Layout.Proofs EmbossV.Layout.ProofsMain EmbossV.Layout.Exec.
 Require Import EmbossV.Layout.ModelExt EmbossV.Layout.ExecExt EmbossV.Layout.ProofsExt.
+Require Import EmbossV.Layout.ModelExt2 EmbossV.Layout.ExecExt2 EmbossV.Layout.ProofsExt2.
 Open Scope Z_scope.
 
 (* For ALL modules of the modelled IR subset and ALL attribute / reserved-word tables:
@@ -176,3 +177,51 @@ Theorem old_parameter_names_unchecked_refuted :
   check_front_x_old ex_T ex_X_bad_param ex_M = true /\ check_front_x ex_T ex_X_bad_param ex_M = false
   /\ exists n, In n (x_param_names ex_X_bad_param) /\ In n (t_reserved ex_T).
 Proof. exact old_parameter_names_unchecked_lem. Qed.
+
+(* ====================== second extension (ModelExt2.v) ====================== *)
+
+(* For ALL modules, tables and extension data: the front-end mirror extended with the constancy of
+   static references and the [expected_back_ends] declaration of every module, together with the C++
+   back end's attribute verification, accepts exactly the modules that satisfy the stated rules.
+   (User-defined externals are part of check_layout / realisable themselves.) *)
+Theorem check_layout_y_iff_realisable_y : forall T C X Y M,
+  t_req T = prelude_req -> units_ok M -> (check_layout_y T C X Y M = true <-> realisable_y T C X Y M).
+Proof. exact check_layout_y_iff. Qed.
+
+Theorem check_front_y_iff_realisable_front_y : forall T X Y M,
+  t_req T = prelude_req -> units_ok M -> (check_front_y T X Y M = true <-> realisable_front_y T X Y M).
+Proof. exact check_front_y_iff. Qed.
+
+(* "Static references must refer to constants": every static reference resolves to a constant enum
+   value or to a virtual field whose value is constant *)
+Theorem static_reference_rule : forall l, check_srefs l = true <-> forall t, In t l -> real_sref t.
+Proof. exact check_srefs_iff. Qed.
+
+(* [expected_back_ends]: blank, or comma-separated back-end names (lower-case letter, then lower-case
+   letters, digits, underscores), each padded by whitespace, optional trailing comma *)
+Theorem expected_back_ends_rule : forall s, back_ends_okb s = true <-> back_ends_ok s.
+Proof. exact back_ends_okb_iff. Qed.
+
+(* the qualifiers then accepted are exactly the trimmed comma-separated pieces of that string *)
+Theorem expected_back_ends_members : forall s b,
+  In b (back_ends_of s) <->
+  exists piece, In piece (split_comma (list_ascii_of_string s)) /\ b = string_of_list_ascii (trim piece).
+Proof. exact back_ends_members_lem. Qed.
+
+Theorem back_end_declaration_rule : forall d, check_be_decl d = true <-> real_be_decl d.
+Proof. exact check_be_decl_iff. Qed.
+
+(* non-vacuity: one realisable instance; eight that break one rule each (non-constant virtual field,
+   non-constant enum value, "cpp,,xyz", "Cpp", "cpp xyz", undeclared cpp, blank list with a qualifier in
+   use, default list with xyz in use) *)
+Example example_realisable_y :
+  units_ok ex_M /\ check_layout_y ex_T ex_C ex_X ex_Y ex_M = true /\ realisable_y ex_T ex_C ex_X ex_Y ex_M
+  /\ Forall (fun Y => check_layout_y ex_T ex_C ex_X Y ex_M = false /\ ~ realisable_y ex_T ex_C ex_X Y ex_M) ex_Y_bad.
+Proof. exact example_realisable_y_lem. Qed.
+
+Example back_ends_examples :
+  back_ends_ok "cpp" /\ back_ends_ok " cpp , proto_2 ," /\ back_ends_ok "" /\ back_ends_ok "  "
+  /\ ~ back_ends_ok "cpp,,proto" /\ ~ back_ends_ok "Cpp" /\ ~ back_ends_ok "cpp proto" /\ ~ back_ends_ok ",cpp"
+  /\ ~ back_ends_ok "2cpp" /\ ~ back_ends_ok "cpp, ,"
+  /\ back_ends_of " cpp , proto_2 ," = ["cpp"; "proto_2"; ""]%string.
+Proof. exact back_ends_examples_lem. Qed.
